@@ -215,13 +215,7 @@ def r01_3(prog, rep, rid='R01.3'):
                        f.loc(c))
                 continue
             # (b) guarded by the truthy branch of self._try_allocation(thing)
-            okb = False
-            for tid, lab in guards(g, node.id):
-                a = g.nodes[tid].ast
-                if isinstance(a, ast.Call) and \
-                        call_name(a) == 'self._try_allocation' and lab == 'T' \
-                        and a.args and unparse(a.args[0]) == unparse(thing):
-                    okb = True
+            okb = granted_by_try(f, g, node, thing)
             if okb:
                 rep.ok(rid, f, 'start of %r is guarded by a true '
                        'self._try_allocation(%s)' % (tname, tname), f.loc(c))
@@ -273,6 +267,29 @@ def r01_3(prog, rep, rid='R01.3'):
         raise AnalysisError('R01.3: only %d hand-on sites to '
                             'AGENT_EXECUTING_PENDING found (expected >= 3)'
                             % n_sites)
+
+
+def granted_by_try(f, g, node, thing=None):
+    """node is control dependent on a true self._try_allocation(thing) -
+    tested directly or through a local that is assigned once from the call"""
+    for tid, lab in guards(g, node.id):
+        a = g.nodes[tid].ast
+        if lab != 'T':
+            continue
+        call = None
+        if isinstance(a, ast.Call):
+            call = a
+        elif isinstance(a, ast.Name):
+            defs = [n for n in walk(f.node) if isinstance(n, ast.Assign) and
+                    any(isinstance(t, ast.Name) and t.id == a.id
+                        for t in n.targets)]
+            if len(defs) == 1 and isinstance(defs[0].value, ast.Call):
+                call = defs[0].value
+        if call is not None and call_name(call) == 'self._try_allocation' \
+                and call.args and (thing is None or
+                                   unparse(call.args[0]) == unparse(thing)):
+            return True
+    return False
 
 
 def _from_bisect(f, name):
@@ -1143,4 +1160,6 @@ SILENT = [
     dict(name='blocked marking split in two ifs', edits=[
         (_R, "                for idx in blocked_gpus:\n                    assert len(node['gpus']) > idx\n                    node['gpus'][idx] = rpc.DOWN\n",
              "                if blocked_gpus:\n                    for idx in blocked_gpus:\n                        node['gpus'][idx] = rpc.DOWN\n")]),
+    dict(name='placement result tested into a local first', edits=[
+        (_B, "                    if self._try_allocation(task):\n                        # task got scheduled", "                    placed = self._try_allocation(task)\n                    if placed:\n                        # task got scheduled")]),
 ]
